@@ -15,11 +15,11 @@ PROPS = {
              "(damped_jacobi, spai0, gauss_seidel, ilu0, iluk, ilup, chebyshev): symmetry max|B-B^T| <= 64 (16 + n + kappa_2) u max|B| and lambda_min(sym B) > 0 when npre == npost, "
              "rho(I - B A) < 1 - 1e-10 always (symmetric eigen-solver on L^T B L when npre == npost, general eigenvalues otherwise). "
              "non-trivial: the hierarchy has >= 2 levels. distinct = distinct decoded choice sequences (64-bit hash), united over shards. "
-             "Known-finding regions (counted in excluded_known, the remaining clauses are asserted before the exclusion): F-agg, F-emin, F-smoother-coarse, F-rs-abseps.",
+             "Known-finding regions (counted in excluded_known, the remaining clauses are asserted before the exclusion): F-agg, F-emin-residue (emin aggregates whose A_f P_tent column is a non-zero rounding residue; exact zeros are repaired in /repo by a58f297 and asserted), F-smoother-coarse, F-rs-abseps.",
         assumptions=["Eigen's symmetric and general eigenvalue solvers are accurate to 1e-10 on n <= 200",
                      "rounding scale of one cycle application is (n + kappa_2(A)) u ||B|| ||f|| (measured maxima: 2.5 for linearity, 5.1 for symmetry, over 1e5 cases)",
                      "one OpenMP thread (serial Gauss-Seidel / serial or level-scheduled ILU solves as configured)"],
-        min_nontrivial=500,
+        min_nontrivial=4000,
     ),
 }
 
